@@ -3,9 +3,12 @@ package props
 import (
 	"bytes"
 	"fmt"
+	"io"
 	"testing"
 
+	naslogger "free5gclib/nas/logger"
 	"free5gclib/nas/security"
+	"github.com/sirupsen/logrus"
 	"pgregory.net/rapid"
 
 	"verifh/ev"
@@ -33,6 +36,40 @@ type c07Case struct {
 var c07Algs = []string{"NEA0", "NEA1", "NEA2", "NIA1", "NIA2"}
 
 func genBytes(t *rapid.T, n int, label string) []byte {
+	return rapid.SliceOfN(rapid.Byte(), n, n).Draw(t, label)
+}
+
+
+// genPayload: message octets. Mostly uniform; one case in five structured the way real NAS contents are — long runs of
+// one value (zero padding, 0xFF fillers), a few non-zero octets in a zero field, the same block repeated — so that
+// whole 4/8/16-octet blocks are zero or equal to their neighbours.
+func genPayload(t *rapid.T, n int, label string) []byte {
+	if n == 0 {
+		return []byte{}
+	}
+	switch rapid.IntRange(0, 9).Draw(t, label+"_shape") {
+	case 0:
+		b := make([]byte, n)
+		fill := rapid.SampledFrom([]byte{0x00, 0x00, 0xff, 0x2b}).Draw(t, label+"_fill")
+		for i := range b {
+			b[i] = fill
+		}
+		k := rapid.IntRange(0, 6).Draw(t, label+"_marks")
+		for i := 0; i < k; i++ {
+			b[rapid.IntRange(0, n-1).Draw(t, label+"_markpos")] = rapid.Byte().Draw(t, label+"_mark")
+		}
+		if rapid.Bool().Draw(t, label+"_head") {
+			b[0] = rapid.ByteRange(1, 255).Draw(t, label+"_head0")
+		}
+		return b
+	case 1:
+		blk := rapid.SliceOfN(rapid.Byte(), 1, 16).Draw(t, label+"_blk")
+		b := make([]byte, n)
+		for i := range b {
+			b[i] = blk[i%len(blk)]
+		}
+		return b
+	}
 	return rapid.SliceOfN(rapid.Byte(), n, n).Draw(t, label)
 }
 
@@ -85,7 +122,7 @@ func genC07Call(t *rapid.T, i int) c07Call {
 		Bearer: uint8(rapid.IntRange(0, 31).Draw(t, l+"bearer")),
 		Dir:    uint8(rapid.IntRange(0, 1).Draw(t, l+"dir")),
 	}
-	c.Msg = genBytes(t, genMsgLen(t, l+"len"), l+"msg")
+	c.Msg = genPayload(t, genMsgLen(t, l+"len"), l+"msg")
 	if rapid.IntRange(0, 39).Draw(t, l+"refuse") == 0 {
 		c.Refusal = true
 		if rapid.Bool().Draw(t, l+"refuse_b") {
@@ -116,7 +153,7 @@ func genC07(t *rapid.T) c07Case {
 				if !p.Refusal {
 					call.Alg, call.Key, call.Count, call.Bearer, call.Dir = p.Alg, p.Key, p.Count, p.Bearer, p.Dir
 					if rapid.IntRange(0, 3).Draw(t, l+"reuse_short") != 0 {
-						call.Msg = genBytes(t, rapid.IntRange(1, 40).Draw(t, l+"reuse_len"), l+"reuse_msg")
+						call.Msg = genPayload(t, rapid.IntRange(1, 40).Draw(t, l+"reuse_len"), l+"reuse_msg")
 					}
 					if rapid.IntRange(0, 3).Draw(t, l+"reuse_otheralg") == 0 {
 						call.Alg = rapid.SampledFrom(c07Algs).Draw(t, l+"reuse_alg")
@@ -245,6 +282,12 @@ func c07Oracle(c c07Case) ev.Verdict {
 		if len(call.Msg) > 16384 {
 			v.Classes = append(v.Classes, "len>16384")
 		}
+		for i := 8; i+8 <= len(call.Msg); i += 8 {
+			if bytes.Equal(call.Msg[i:i+8], make([]byte, 8)) && !bytes.Equal(call.Msg[:i], make([]byte, i)) {
+				v.Classes = append(v.Classes, "msg:zero-block-after-non-zero")
+				break
+			}
+		}
 	}
 	return v
 }
@@ -291,6 +334,45 @@ func TestC07_Lengths(t *testing.T) {
 		for _, call := range calls {
 			cs := c07Case{Calls: []c07Call{call}}
 			if !r.Each(t, cs, ev.SafeOracle(c07Oracle, cs)) {
+				return
+			}
+		}
+	}
+}
+
+
+// TestC07_LogLevels: "a function of the arguments only" also means: not of the logging configuration. The same mixed
+// calls at every logrus level of the security logger (the emulator never changes it; an integrator may).
+func TestC07_LogLevels(t *testing.T) {
+	r := ev.New(t, "C07", "TestC07_LogLevels")
+	defer r.Flush()
+	old := naslogger.SecurityLog.Logger.GetLevel()
+	oldOut := naslogger.SecurityLog.Logger.Out
+	naslogger.SecurityLog.Logger.SetOutput(io.Discard)
+	defer func() { naslogger.SecurityLog.Logger.SetLevel(old); naslogger.SecurityLog.Logger.SetOutput(oldOut) }()
+	for li, lvl := range logrus.AllLevels {
+		if lvl < logrus.ErrorLevel {
+			continue // panic / fatal levels only silence the logger further
+		}
+		naslogger.SecurityLog.Logger.SetLevel(lvl)
+		calls := rapid.Custom(func(rt *rapid.T) []c07Call {
+			var out []c07Call
+			for i := 0; i < 40; i++ {
+				c := genC07Call(rt, i)
+				c.Refusal = false
+				c.Bearer, c.Dir = c.Bearer%32, c.Dir%2
+				out = append(out, c)
+			}
+			return out
+		}).Example(int(ev.BaseSeed()%1000003) + 31*li)
+		for _, call := range calls {
+			cs := c07Case{Calls: []c07Call{call}}
+			vv := ev.SafeOracle(c07Oracle, cs)
+			vv.Classes = append(vv.Classes, "loglevel:"+lvl.String())
+			if vv.Err != nil {
+				vv.Key = "loglevel-" + lvl.String() + ":" + vv.Key
+			}
+			if !r.Each(t, cs, vv) {
 				return
 			}
 		}
